@@ -139,7 +139,7 @@ func init() {
 		}
 		keys = append(keys, "j", "k0\xff", "k1")
 		sort.Strings(keys)
-		for layout := 0; layout < 3; layout++ {
+		for layout := 0; layout < 4; layout++ {
 			for _, nvk := range []int{1, 100} {
 				for _, numGo := range []int{1, 2, 3} {
 					for _, prefix := range []string{"", "k0", "k1"} {
@@ -208,12 +208,21 @@ func init() {
 										round(1)
 										round(2)
 										deep()
-									case 2: // last level + L0 + memtable
+									case 2, 3: // last level + L0 + memtable
 										round(0)
 										deep()
 										round(1)
 										lsmFlushNoBubble(db)
 										round(2)
+										if layout == 3 {
+											// plus user keys whose bytes EQUAL the range split points (a split point
+											// is an internal key: user key + 8-byte version suffix)
+											for _, r := range db.Ranges(nil, numGo) {
+												if len(r.right) > 0 {
+													write(string(r.right), false)
+												}
+											}
+										}
 									}
 									readTs := db.orc.nextTs() - 1
 									var since uint64
@@ -298,6 +307,16 @@ func init() {
 					})
 					if err != nil {
 						st.errs = append(st.errs, err.Error())
+					}
+					if x.j.Int("case", 0) == 1 {
+						// a finished read lets the read watermark advance to the transfer (unless the
+						// stream's snapshot holds it), then the old versions are flushed and compacted
+						// away with NumVersionsToKeep 1 while the stream may still be running
+						_ = x.db.View(func(txn *Txn) error { return nil })
+						x.s.Point("op")
+						x.flushBlocking()
+						x.s.Point("op")
+						runOnceAs(x.db, 0)
 					}
 				}},
 			}
